@@ -178,11 +178,12 @@ def judge(g, op, dom, broken, out, t, before=None):
         # create extra connections or orphan nodes
         miss, extra, orph = L.mesh_defect_sets(g)
         d = []
-        if miss: d.append('missing connections %s' % sorted(miss)[:4])
         if op[0] in ('cf', 'rd'):
+            if miss: d.append('missing connections %s' % sorted(miss)[:4])
             if extra: d.append('extra connections %s' % sorted(extra)[:4])
             if orph: d.append('orphan nodes %s' % sorted(orph)[:4])
         else:
+            if miss - before[0]: d.append('new missing connections %s' % sorted(miss - before[0])[:4])
             if extra - before[1]: d.append('new extra connections %s' % sorted(extra - before[1])[:4])
             if orph - before[2]: d.append('new orphan nodes %s' % sorted(orph - before[2])[:4])
         if d: out.fails.append((t, '%s:valid-mesh' % L.OP_METHOD[op[0]], d))
@@ -360,7 +361,16 @@ def exhaustive_worker(args):
     branches of one start geometry; every prefix is observed after every step"""
     init, depth, first_idx, exe, fixbits, level = args
     stats = Stats()
-    g0 = start_geometry(init)
+    try:
+        g0 = start_geometry(init)
+        bad0 = L.inv_classes(g0)
+    except Exception as e:
+        bad0 = {'construction': ['building the start geometry raises %s' % L.exn_name(e)]}
+    if bad0:
+        key = 'start-geometry:%s' % sorted(bad0)[0]
+        stats.failn[key] += 1; stats.seq += 1
+        stats.fail[key] = ({'init': init, 'ops': []}, -1, [m for v in bad0.values() for m in v][:3])
+        return stats
     prefix = L.geo_as_ops(g0)
     d0 = L.dump(g0)
     lines, cases, expects = [], [], []
@@ -398,7 +408,8 @@ def exhaustive_worker(args):
 
 
 def n_first_level(init, level):
-    return len(alphabet(start_geometry(init), 0, level[0]))
+    try: return len(alphabet(start_geometry(init), 0, level[0]))
+    except Exception: return 1
 
 
 # ----------------------------------------------------------------------------------------------
@@ -547,7 +558,18 @@ def random_worker(args):
     lines, cases, expects = [], [], []
     for ci in range(ncases):
         init = starts[(seed + ci) % len(starts)]
-        g = start_geometry(init)
+        try:
+            g = start_geometry(init)
+            bad0 = L.inv_classes(g)
+        except Exception as e:
+            bad0 = {'construction': ['building the start geometry raises %s' % L.exn_name(e)]}
+            g = None
+        if bad0:        # the start geometry itself (read / rectangular / reduce of a shipped file) is not consistent
+            key = 'start-geometry:%s' % sorted(bad0)[0]
+            stats.failn[key] += 1
+            stats.fail.setdefault(key, ({'init': init, 'ops': []}, -1, [m for v in bad0.values() for m in v][:3]))
+            stats.seq += 1
+            continue
         g0 = g
         prefix = L.geo_as_ops(g)
         hash_mode = len(g.columnlist) > 30
@@ -703,10 +725,16 @@ def run(ctx):
 def replay(ctx, data):
     case = data.get('input') or {}
     if not case or 'ops' not in case: return True
-    g = start_geometry(case['init'])
+    key = data.get('finding_key') or data.get('key')
+    try:
+        g = start_geometry(case['init'])
+        bad0 = L.inv_classes(g)
+    except Exception as e:
+        print('replay: building the start geometry %s raises %s' % (json.dumps(case['init']), L.exn_name(e))); return True
+    if bad0:
+        print('replay: the start geometry %s is not consistent: %s' % (json.dumps(case['init']), bad0)); return True
     ops = [_t(o) for o in case['ops']]
     out = run_impl_sequence(g, ops)
-    key = data.get('finding_key') or data.get('key')
     print('replay: start %s, %d edit(s): %s' % (json.dumps(case['init']), len(ops), json.dumps(case['ops'])[:600]))
     hit = [f for f in out.fails if key is None or f[1] == key]
     if hit:
